@@ -39,6 +39,10 @@ type faultInput struct {
 }
 
 func faultInputs() []faultInput {
+	return append(faultBuildInputs(), faultMergeInputs()...)
+}
+
+func faultBuildInputs() []faultInput {
 	tm := enum.TextMenu()
 	sm := enum.SynMenu()
 	return []faultInput{
@@ -46,10 +50,22 @@ func faultInputs() []faultInput {
 		{"multi-field with doc values", []spec.Batch{tm[6]}, nil},
 		{"synonyms", []spec.Batch{sm[3]}, nil},
 		{"empty", []spec.Batch{{}}, nil},
+		{"composite field, overlapping names", []spec.Batch{tm[4]}, nil},
+		{"varint-boundary values", []spec.Batch{tm[7]}, nil},
+		{"stored value larger than the write buffer (6000 bytes)", []spec.Batch{enum.BigCase{Size: 6000, Mode: 1026}.Batch()}, nil},
+	}
+}
+
+func faultMergeInputs() []faultInput {
+	tm := enum.TextMenu()
+	sm := enum.SynMenu()
+	return []faultInput{
 		{"merge of two segments", []spec.Batch{tm[2], tm[3]}, [][]int{nil, nil}},
 		{"merge with deletions", []spec.Batch{tm[2], tm[6]}, [][]int{{0}, {1, 2}}},
 		{"merge of synonym segments", []spec.Batch{sm[0], sm[1]}, [][]int{nil, {1}}},
 		{"merge with overlapping fields", []spec.Batch{tm[4], tm[5], tm[1]}, [][]int{nil, nil, nil}},
+		{"merge without survivors", []spec.Batch{tm[2], tm[1]}, [][]int{{0, 1}, {0}}},
+		{"merge with varint-boundary values (byte-copy path)", []spec.Batch{tm[7], tm[3]}, [][]int{nil, nil}},
 	}
 }
 
@@ -340,9 +356,9 @@ func init() {
 	run.Register(&run.Def{
 		ID:          "C17",
 		Level:       "fault_enumeration",
-		Rule:        "deviation enumeration on the real write paths: for each of 8 inputs (small, multi-field with doc values, synonyms, empty batch; merges of 2-3 segments with and without deletions, synonyms, overlapping field lists): WriteTo(w) with w failing at EVERY byte offset 0..len-1, once as (short count, error) and once as an all-or-nothing writer returning (0, error) for the write that would cross the offset; Persist(path) and Merge(...,path) under RLIMIT_FSIZE = N for EVERY N in [0, size) (a real torn write at byte N followed by EFBIG; DefaultFileMergerBufferSize = 16 so that flush boundaries are dense); plus the fault-free run of each; the whole enumeration is repeated in the instrumented flavour under both orders in which the two sections can be laid out (in the plain flavour the order is whatever the Go runtime picks). Oracle: every fault yields a non-nil error and, for the path-based operations, no file at the path; the fault-free run yields identical Persist/WriteTo bytes, a footer with count/chunk mode/version 16/CRC-32 (independent decoder), re-opens to the reference content, and Merge's maps and size are right. Non-trivial = one (input, operation, fault offset) whose fault was actually triggered.",
+		Rule:        "deviation enumeration on the real write paths: for each of 13 inputs (builds: small, multi-field with doc values, synonyms, empty batch, composite field, varint-boundary values, a stored value larger than the write buffer; merges of 2-3 segments with and without deletions, synonyms, overlapping field lists, without survivors, byte-copy path with varint-boundary values): WriteTo(w) with w failing at EVERY byte offset 0..len-1, once as (short count, error) and once as an all-or-nothing writer returning (0, error) for the write that would cross the offset; Persist(path) and Merge(...,path) under RLIMIT_FSIZE = N for EVERY N in [0, size) (a real torn write at byte N followed by EFBIG; DefaultFileMergerBufferSize = 16 so that flush boundaries are dense); plus the fault-free run of each; the whole enumeration is repeated in the instrumented flavour under both orders in which the two sections can be laid out (in the plain flavour the order is whatever the Go runtime picks). Oracle: every fault yields a non-nil error and, for the path-based operations, no file at the path; the fault-free run yields identical Persist/WriteTo bytes, a footer with count/chunk mode/version 16/CRC-32 (independent decoder), re-opens to the reference content, and Merge's maps and size are right. Non-trivial = one (input, operation, fault offset) whose fault was actually triggered.",
 		Assumptions: []string{"Sync and Close failures of the output file cannot be provoked through the OS interface used here and are not injected in this tier", "the size of an output depends on the order in which sections are laid out (Go map order changes varint lengths of offsets): a run whose output is shorter than the fault offset is accepted iff it is a complete correct output", "output paths do not exist before the call"},
-		Bounds:      map[string]string{"quick": "8 inputs, every byte offset of every output (2 legal WriteTo failure modes; Persist for the 4 build inputs; Merge for the 4 merge inputs)", "thorough": "same: the fault space is enumerated completely in both tiers"},
+		Bounds:      map[string]string{"quick": "13 inputs, every byte offset of every output (2 legal WriteTo failure modes; Persist for the 7 build inputs; Merge for the 6 merge inputs), random section order + both section orders", "thorough": "same: the fault space is enumerated completely in both tiers"},
 		Flavours:    func(string) []string { return []string{"plain", "inst"} },
 		New:         func() interface{} { return &FaultCase{} },
 		Gen: func(tier string, emit func(interface{})) {
